@@ -1,56 +1,180 @@
 // C18: OVMB detects truncation, framing corruption and stream failures -- WHOLE-FILE level.
 // The public entry point IO::ovmb_read(std::istream&, MeshT&, ReadOptions, codecs) is run on the bytes of valid files
-// produced by the real writer (gen/c18_files.inc, generated at check time by tools/gen_ovmb.cpp) after a symbolic fault:
-//   (1) truncation to a symbolic length, (2) substitution of one byte of a must-reject field by a symbolic other value,
-//   (3) a forbidden change of the chunk structure, (4) a stream that stops delivering at a symbolic offset.
+// produced by the real writer (gen/c18_files.inc, generated at check time by tools/gen_ovmb.cpp) after one fault:
+//   (1) truncation to length L, (2) substitution of one byte of a must-reject field by a SYMBOLIC other value,
+//   (3) a forbidden change of the chunk structure, (4) a stream that stops delivering at offset P.
+// L, P, the substituted offset and the structure change are chosen by a symbolic selector dispatched to literal cases
+// (8 per query, the block of 8 is the shard parameter 1), because the reader's control flow and the mesh containers
+// depend on them; the substituted byte value is a free symbolic byte.
 // The stream is the memory-buffer model of models/stream_model.cpp (vstream.h); natively a real std::istream.
+// shard params: 0 = file (FM_EMPTY/FM_TET/FM_TETP), 1 = block of 8 cases.
 #include "verif.h"
 #include "c18_meshes.h"
 #include "vstream.h"
 #include "gen/c18_files.inc"
 #include <OpenVolumeMesh/IO/ovmb_read.hh>
+#include <OpenVolumeMesh/IO/PropertyCodecsT_impl.hh>
 using namespace OpenVolumeMesh::IO;
 
-enum { NOFAULT = ~0ull };
-enum { BUFCAP = 512 };
+static const uint64_t NOFAULT = ~0ull;
+enum { BUFCAP = 1024 };
 static uint8_t g_buf[BUFCAP];
 
-static unsigned file_len(unsigned which) { return which == FM_EMPTY ? F_EMPTY_LEN : which == FM_TET ? F_TET_LEN : F_TETP_LEN; }
-static const unsigned char *file_bytes(unsigned which) { return which == FM_EMPTY ? F_EMPTY : which == FM_TET ? F_TET : F_TETP; }
-static void load_file(unsigned which) {
-  const unsigned char *b = file_bytes(which); unsigned n = file_len(which);
-  for (unsigned i = 0; i < n; ++i) g_buf[i] = b[i];
+struct FileDesc { const unsigned char *bytes, *cls; unsigned len, nchunks; const unsigned short *chunk_off, *chunk_maxh, *chunk_limit; const unsigned char *chunk_kind; };
+static FileDesc file_desc(unsigned which) {
+  FileDesc d;
+  if (which == FM_EMPTY) { d.bytes = F_EMPTY; d.cls = F_EMPTY_CLS; d.len = F_EMPTY_LEN; d.nchunks = F_EMPTY_NCHUNKS; d.chunk_off = F_EMPTY_CHUNK_OFF; d.chunk_maxh = F_EMPTY_CHUNK_MAXH; d.chunk_limit = F_EMPTY_CHUNK_LIMIT; d.chunk_kind = F_EMPTY_CHUNK_KIND; }
+  else if (which == FM_TET) { d.bytes = F_TET; d.cls = F_TET_CLS; d.len = F_TET_LEN; d.nchunks = F_TET_NCHUNKS; d.chunk_off = F_TET_CHUNK_OFF; d.chunk_maxh = F_TET_CHUNK_MAXH; d.chunk_limit = F_TET_CHUNK_LIMIT; d.chunk_kind = F_TET_CHUNK_KIND; }
+  else { d.bytes = F_TETP; d.cls = F_TETP_CLS; d.len = F_TETP_LEN; d.nchunks = F_TETP_NCHUNKS; d.chunk_off = F_TETP_CHUNK_OFF; d.chunk_maxh = F_TETP_CHUNK_MAXH; d.chunk_limit = F_TETP_CHUNK_LIMIT; d.chunk_kind = F_TETP_CHUNK_KIND; }
+  return d;
 }
+// constant-size copies (ll2c lowers them to per-byte assignments; a run-time-size memcpy would make the contents opaque to symex)
+static void load_file(unsigned which) {
+  switch (which) {
+  case FM_EMPTY: __builtin_memcpy(g_buf, F_EMPTY, F_EMPTY_LEN); break;
+  case FM_TET: __builtin_memcpy(g_buf, F_TET, F_TET_LEN); break;
+  default: __builtin_memcpy(g_buf, F_TETP, F_TETP_LEN); break;
+  }
+}
+// guarded constant-bound copy (no memcpy idiom): n <= COPY_MAX bytes of src to g_buf[o..]
+enum { COPY_MAX = 128 };
+static __attribute__((noinline)) void copy_bytes(unsigned o, const unsigned char *src, unsigned n) {
+  for (unsigned i = 0; i < COPY_MAX; ++i) if (i < n) g_buf[o + i] = src[i];
+}
+static unsigned chunk_end(const FileDesc &d, unsigned k) { return k + 1 < d.nchunks ? d.chunk_off[k + 1] : d.len; }
 
-static __attribute__((noinline)) ReadResult read_buf(uint64_t n, uint64_t fail_at, VMesh &m, bool with_codecs) {
+// the codecs handed to the reader: only the codec of the one property of FM_TETP ("i32"), registered through the real
+// PropertyCodecs::register_codec template -- the 30-codec default registry g_default_property_codecs is not encoded (see spec)
+static __attribute__((noinline)) ReadResult read_buf(uint64_t n, uint64_t fail_at, VMesh &m, bool with_codec) {
   VIn in(g_buf, n, fail_at);
   ReadOptions opt;
-  if (with_codecs) return ovmb_read(in.stream(), m, opt, g_default_property_codecs);
-  PropertyCodecs none;
-  return ovmb_read(in.stream(), m, opt, none);
+  PropertyCodecs codecs;
+  if (with_codec) codecs.register_codec<Codecs::SimplePropCodec<Codecs::Primitive<int32_t>>>("i32");
+  return ovmb_read(in.stream(), m, opt, codecs);
 }
 
-// ---- sanity: the unmodified files read Ok (keeps the other harnesses honest: a reader that rejects everything would pass them)
+enum Mode { M_TRUNC = 1, M_FAULT, M_SUBST, M_SUBST_COMPRESSION, M_STRUCT };
+static unsigned g_mode;
+
+// ---- (3) chunk structure: sequences of chunk indices of the valid file; every one is forbidden by the format
+//      (binary_file_format.docu: "exactly one EOF chunk at the very end", "a property directory chunk may occur zero or one time";
+//       topology/property chunks refer to entities/directory entries defined by earlier chunks)
+enum { SEQ_MAX = 9, END = 255 };
+// FM_TET chunks: 0 VERT, 1 EDGES, 2 FACES, 3 CELLS, 4 EOF
+static const unsigned char TET_SEQS[][SEQ_MAX] = {
+  {0, 1, 2, 3, END},          // EOF chunk dropped (file ends at a chunk boundary)
+  {0, 1, 2, 3, 4, 4, END},    // second EOF chunk
+  {0, 1, 2, 4, 3, END},       // EOF chunk not at the very end (CELLS after it)
+  {4, 0, 1, 2, 3, END},       // EOF chunk first
+  {0, 2, 3, 4, END},          // EDGES dropped: faces refer to halfedges that do not exist
+  {0, 1, 3, 4, END},          // FACES dropped: the cell refers to halffaces that do not exist
+  {0, 1, 2, 4, END},          // CELLS dropped: header announces one cell
+  {0, 0, 1, 2, 3, 4, END},    // VERT duplicated: span does not resume where the last one ended
+  {0, 1, 1, 2, 3, 4, END},    // EDGES duplicated
+  {0, 1, 2, 2, 3, 4, END},    // FACES duplicated
+  {0, 1, 2, 3, 3, 4, END},    // CELLS duplicated
+  {0, 2, 1, 3, 4, END},       // FACES before the EDGES they refer to
+  {0, 1, 3, 2, 4, END},       // CELLS before the FACES they refer to
+};
+// FM_TETP chunks: 0 DIRP, 1 VERT, 2 EDGES, 3 FACES, 4 CELLS, 5 PROP, 6 EOF
+static const unsigned char TETP_SEQS[][SEQ_MAX] = {
+  {0, 0, 1, 2, 3, 4, 5, 6, END},   // second DIRP
+  {1, 2, 3, 4, 5, 6, END},         // DIRP dropped, PROP refers to a directory entry that does not exist
+  {5, 0, 1, 2, 3, 4, 6, END},      // PROP before DIRP
+  {0, 1, 2, 3, 4, 6, 5, END},      // EOF chunk not at the very end (PROP after it)
+  {0, 1, 2, 3, 4, 5, END},         // EOF chunk dropped
+};
+enum { N_TET_SEQS = sizeof(TET_SEQS) / SEQ_MAX, N_TETP_SEQS = sizeof(TETP_SEQS) / SEQ_MAX };
+
+static unsigned build_seq(const FileDesc &d, const unsigned char *seq) {
+  unsigned n = 48;
+  copy_bytes(0, d.bytes, 48);
+  for (unsigned s = 0; s < SEQ_MAX; ++s) {
+    if (seq[s] == END) break;
+    unsigned k = seq[s], len = chunk_end(d, k) - d.chunk_off[k];
+    copy_bytes(n, d.bytes + d.chunk_off[k], len);
+    n += len;
+  }
+  return n;
+}
+
+static __attribute__((noinline)) void do_case(unsigned i) {
+  unsigned which = v_param(0);
+  unsigned n = v_param(1) * CASES_PER_QUERY + i;
+  FileDesc d = file_desc(which);
+  VMesh m;
+  switch (g_mode) {
+  case M_TRUNC: {   // (1) every strict prefix is rejected
+    if (n >= d.len) { v_witness("C18 case outside the file"); return; }
+    load_file(which);
+    ReadResult r = read_buf(n, NOFAULT, m, which == FM_TETP);
+    v_assert(r != ReadResult::Ok, "C18 truncation: a strict prefix of a valid file must not read as Ok");
+    v_witness("C18 truncation case end");
+    break; }
+  case M_FAULT: {   // (4) the stream stops delivering at offset n < size: error result, never Ok
+    if (n >= d.len) { v_witness("C18 case outside the file"); return; }
+    load_file(which);
+    ReadResult r = read_buf(d.len, n, m, which == FM_TETP);
+    v_assert(r != ReadResult::Ok, "C18 stream fault: a read failure of the underlying stream must not read as Ok");
+    v_witness("C18 stream fault case end");
+    break; }
+  case M_SUBST: case M_SUBST_COMPRESSION: {   // (2) one byte of a must-reject field replaced by a symbolic other value
+    // n-th byte of the must-reject set (classes of the generator's walk of the published layout)
+    unsigned off = 0, cnt = 0; bool found = false;
+    for (unsigned o = 0; o < d.len; ++o) {
+      bool in = g_mode == M_SUBST ? (d.cls[o] != CLS_FREE && d.cls[o] != CLS_COMPRESSION) : d.cls[o] == CLS_COMPRESSION;
+      if (in) { if (cnt == n) { off = o; found = true; } ++cnt; }
+    }
+    if (!found) { v_witness("C18 case outside the must-reject set"); return; }
+    load_file(which);
+    unsigned cls = d.cls[off];
+    unsigned chunk = 0; for (unsigned k = 0; k < d.nchunks; ++k) if (d.chunk_off[k] <= off) chunk = k;
+    uint8_t orig = g_buf[off], nb = v_nondet_u8();
+    v_assume(nb != orig);
+    if (cls == CLS_TOPO_TYPE) v_assume(nb > 2 || (nb == 2 && which != FM_EMPTY));   // Polyhedral/Tetrahedral stay consistent with a tet; anything is consistent with no cells
+    if (cls == CLS_HANDLE) v_assume(nb >= d.chunk_limit[chunk]);                       // (files use 1-byte handles) handle made >= number of referenced entities
+    if (cls == CLS_HANDLE_OFFSET) {                                                  // offset added to every handle: the largest one leaves the range
+      unsigned byte_idx = (off - (d.chunk_off[chunk] + 16 + 16)) & 7;
+      if (byte_idx == 0) v_assume((unsigned)nb + d.chunk_maxh[chunk] >= d.chunk_limit[chunk]);
+    }
+    g_buf[off] = nb;
+    ReadResult r = read_buf(d.len, NOFAULT, m, which == FM_TETP);
+    if (g_mode == M_SUBST) v_assert(r != ReadResult::Ok, "C18 substitution: a file with an inconsistent must-reject field must not read as Ok");
+    else v_assert(r != ReadResult::Ok, "C18 substitution (compression byte, 'must always be 0'): must not read as Ok");
+    v_witness("C18 substitution case end");
+    break; }
+  case M_STRUCT: {
+    unsigned nseq = which == FM_TET ? (unsigned)N_TET_SEQS : which == FM_TETP ? (unsigned)N_TETP_SEQS : 0u;
+    if (n >= nseq) { v_witness("C18 case outside the structure list"); return; }
+    unsigned len = build_seq(d, which == FM_TET ? TET_SEQS[n] : TETP_SEQS[n]);
+    ReadResult r = read_buf(len, NOFAULT, m, which == FM_TETP);
+    v_assert(r != ReadResult::Ok, "C18 chunk structure: a forbidden chunk sequence must not read as Ok");
+    v_witness("C18 structure case end");
+    break; }
+  default: break;
+  }
+}
+
+static void run(unsigned mode) {
+  g_mode = mode;
+  unsigned sel = v_nondet_u32();
+  v_assume(sel < CASES_PER_QUERY);
+  dispatch<Case, CASES_PER_QUERY>(sel);
+}
+extern "C" void harness_trunc() { run(M_TRUNC); }
+extern "C" void harness_fault() { run(M_FAULT); }
+extern "C" void harness_subst() { run(M_SUBST); }
+extern "C" void harness_subst_compression() { run(M_SUBST_COMPRESSION); }
+extern "C" void harness_struct() { run(M_STRUCT); }
+
+// ---- sanity: the unmodified files read Ok (a reader that rejects everything would pass all of the above)
 extern "C" void harness_valid() {
   unsigned which = v_param(0);
+  FileDesc d = file_desc(which);
   load_file(which);
   VMesh m;
-  ReadResult r = read_buf(file_len(which), NOFAULT, m, which == FM_TETP);
+  ReadResult r = read_buf(d.len, NOFAULT, m, which == FM_TETP);
   V_ASSERT(r == ReadResult::Ok);
   V_ASSERT(m.n_vertices() == (which == FM_EMPTY ? 0u : 4u) && m.n_cells() == (which == FM_EMPTY ? 0u : 1u));
   v_witness("valid file read");
-}
-
-// ---- (1) truncation: every strict prefix is rejected
-extern "C" void harness_trunc() {
-  unsigned which = v_param(0);
-  load_file(which);
-  unsigned lo = v_param(1), hi = v_param(2);   // shard: L in [lo, hi), hi == 0: whole range
-  if (hi == 0) hi = file_len(which);
-  unsigned L = v_nondet_below(file_len(which));
-  v_assume(L >= lo && L < hi);
-  VMesh m;
-  ReadResult r = read_buf(L, NOFAULT, m, which == FM_TETP);
-  v_assert(r != ReadResult::Ok, "C18 truncation: a strict prefix of a valid file must not read as Ok");
-  v_witness("truncated file rejected or accepted");
 }
